@@ -130,6 +130,58 @@ def eval_bound(ctx, r, msgs, mode, n, meta):
     if n >= 126:
         ctx.nontrivial.add(('bound', mode, n))
 
+def gen_startup(ctx, k):
+    """messages for the user queues that arrive DURING the start-up dialogue (after the library's own reset of queues and tables, i.e. once the
+    node table is being read), with the node table possibly changing during enumeration: they are received messages like any other and
+    must be waiting in their queue, once, when start returns"""
+    rng = ctx.sub_rng('startup', k)
+    sc = Scn(seed=ctx.seed * 23 + k, watchdog=180000)
+    sc.add('bus mode answer', 'bus brackets 0', f'bus node 0.0.0 {BOARD1_UID}')
+    for i in range(rng.randrange(1, 5)):
+        sc.add(f'bus node {5 + i}.0.0 0500aabbccdd{5 + i:02x}')
+    if rng.random() < 0.6:
+        sc.add(f'bus tabchange {rng.randrange(0, 4)}')
+    exp = {'msg': [], 'err': []}
+    GETNEXT, FEATSET, PKTCAP = model.C('MSG_NODETAB_GETNEXT'), model.C('MSG_FEATURE_SET'), model.C('MSG_GET_PKT_CAPACITY')
+    for i in range(rng.randrange(1, 6)):
+        trig, nth = rng.choice([(GETNEXT, rng.randrange(1, 4)), (GETNEXT, 1), (PKTCAP, 1)])
+        if rng.random() < 0.6:
+            m = model.build_msg((0, 0, 0), 0, model.C('MSG_SYS_PONG'), bytes([0xA0 + i, k & 0xFF, 0x5D]))
+            q = 'msg'
+        else:
+            m = model.build_msg((0, 0, 0), 0, model.C('MSG_NODE_NA'), bytes([0xE0 + i]))
+            q = 'err'
+        exp[q].append((m, trig, nth))
+        sc.add(f'bus inject {trig:02x} {nth} {m.hex()}')
+    sc.add(f'start {TESTCFG} 0', 'quiesce', 'mark c0', 'drain', 'mark cend', 'stop')
+    return sc.text(), exp
+
+def eval_startup(ctx, r, exp, meta):
+    if ctx.generic_failures(r, meta):
+        return
+    if runner.outcome(r) != 'ok':
+        return
+    ret = next((e for e in r.events if e.get('e') == 'ret' and e.get('f') == 'bidib_start_pointer'), None)
+    if not ret or ret.get('r') != 0:
+        ctx.inconclusive.append('startup scenario: start failed')
+        return
+    injected = [bytes.fromhex(e['payload']) for e in r.events if e.get('e') == 'up' and e.get('injected')]
+    from ..batch import split_by_marks
+    evs = split_by_marks(r.events).get(0, [])
+    ctx.evaluations += 1
+    for q in ('msg', 'err'):
+        got = [bytes.fromhex(e['msg']) for e in evs if e.get('e') == 'q' and e['q'] == q]
+        want = [m for (m, _t, _n) in exp[q] if m in injected]          # only what was really delivered (a trigger may not have been reached)
+        for m in want:
+            c = got.count(m)
+            if c != 1:
+                ctx.violation('lost-during-startup' if c == 0 else 'returned-twice', q, f'message {m.hex()} was received while the node table was being read (after the library\'s own '
+                              f'queue reset); the {q} queue returned it {c} times after start (queue far below its bound)', r.scenario, r.flavour, meta)
+                return
+        ctx.count('startup_messages_checked', len(want))
+        if want:
+            ctx.nontrivial.add(('startup', q, meta['digest']))
+
 def gen_race(ctx, k):
     rng = ctx.sub_rng('race', k)
     sc = Scn(seed=ctx.seed * 19 + k, perturb=rng.choice([0, 100, 400]), watchdog=180000)
@@ -191,7 +243,7 @@ def eval_race(ctx, r, sent, readers, meta):
 
 def run(ctx):
     ctx.rule = ('(a) all 256 type codes with valid payloads (error and non-error variants, board and unknown sender) fed one by one in normal and debug '
-                'mode, all three queues drained after each; (b) fill levels 1,126..131,200,256,300 of message/error queue; (c) 1-8 reader threads '
+                'mode, all three queues drained after each; (b) fill levels 1,126..131,200,256,300 of message/error queue; (b2) user-queue messages arriving during the start-up dialogue, with and without a node-table change during enumeration; (c) 1-8 reader threads '
                 'racing the receiver over unique messages (asan+tsan, LSan on). non-trivial = distinct (type, destination, mode) / bound level / '
                 'race scenario in which >=2 readers actually received messages')
     ctx.assumptions = ['destination table vlib/uplink.py from README + statement; MSG_VENDOR and undocumented booster states: any single destination accepted',
@@ -205,6 +257,9 @@ def run(ctx):
         text, msgs, mode, n = gen_bound(ctx, k)
         jobs.append(('asan', text, ('bound', msgs, mode, n)))
     for k in range(ctx.n(60, 2000)):
+        text, exp = gen_startup(ctx, k)
+        jobs.append(('asan', text, ('startup', exp)))
+    for k in range(ctx.n(60, 2000)):
         text, sent, readers = gen_race(ctx, k)
         jobs.append(('tsan' if k % 2 else 'asan', text, ('race', sent, readers)))
     for fl in ('asan', 'tsan'):
@@ -214,6 +269,8 @@ def run(ctx):
             meta = {'kind': j[2][0], 'digest': hashlib.sha1(j[1].encode()).hexdigest()[:12]}
             if j[2][0] == 'route':
                 eval_routing(ctx, r, j[2][1], j[2][2], meta)
+            elif j[2][0] == 'startup':
+                eval_startup(ctx, r, j[2][1], meta)
             elif j[2][0] == 'bound':
                 eval_bound(ctx, r, j[2][1], j[2][2], j[2][3], meta)
             else:
